@@ -1,4 +1,4 @@
-CONSTANTS Callers <- C2  MaxId = 4  StartIds = {3}  NPkts = 2  Foreign <- FAll  QMax = 9  Timed = FALSE  TO <- TO2  DialBound = 1  ReadTO = 1  Horizon = 0  SerialDial = TRUE  DialModes = {"accept"}  MayClose = FALSE  Transient <- LocalRx
+CONSTANTS Callers <- C2  MaxId = 4  StartIds = {3}  NPkts = 2  Foreign <- FAll  QMax = 9  Timed = FALSE  TO <- TO2  DialBound = 1  ReadTO = 1  Horizon = 0  SerialDial = TRUE  DialModes = {"accept"}  MayClose = FALSE  RecvOffers = TRUE  Stamp = FALSE  InlineRecv = FALSE  Transient <- LocalRx
 SPECIFICATION Spec
 INVARIANTS TypeOK ReplyMatches IdNonZero IdsDistinct OnePacketOneCaller AcctQueue AcctMgr AcctResp NoResidue
 PROPERTIES LateReplyHarmless OnlyAddressee
